@@ -238,9 +238,10 @@ func (p *c18Pkg) guardFact(fd *ast.FuncDecl) Val {
 
 // goArgFact looks at the serve loop: the buffer handed to ReadFromUDP and the first argument of
 // `go <recv>.<callee>(arg, ...)`.
-//   1  the argument is a fresh slice filled by copy(arg, buf[:n]) / append([]byte(nil), buf[:n]...) / bytes.Clone
-//   0  the argument is the receive buffer itself (buf or buf[:n])
-//   2  anything else
+//
+//	1  the argument is a fresh slice filled by copy(arg, buf[:n]) / append([]byte(nil), buf[:n]...) / bytes.Clone
+//	0  the argument is the receive buffer itself (buf or buf[:n])
+//	2  anything else
 func (p *c18Pkg) goArgFact(fd *ast.FuncDecl, callee string, argIdx int) Val {
 	if fd == nil {
 		return VErr()
@@ -440,10 +441,14 @@ func c18Facts() []c18Fact {
 	}
 	fs = append(fs,
 		c18Fact{"c18.fact.handler_arg.server", func() Val { return nbp().goArgFact(nbp().funcDecl("server.go", "Server", "serve"), "handlePacket", 0) }},
-		c18Fact{"c18.fact.handler_arg.udp_server", func() Val { return nbp().goArgFact(nbp().funcDecl("udp_server.go", "UDPServer", "serve"), "handlePacket", 0) }},
+		c18Fact{"c18.fact.handler_arg.udp_server", func() Val {
+			return nbp().goArgFact(nbp().funcDecl("udp_server.go", "UDPServer", "serve"), "handlePacket", 0)
+		}},
 		c18Fact{"c18.fact.query_guard.challenge", func() Val { return nbp().guardFact(nbp().funcDecl("challenge.go", "NameChallenger", "DefendName")) }},
 		c18Fact{"c18.fact.query_guard.redirect", func() Val { return nbp().guardFact(nbp().funcDecl("redirect.go", "RedirectManager", "HandleRedirect")) }},
-		c18Fact{"c18.fact.handler_arg.llmnr_server", func() Val { return llp().goArgFact(llp().funcDecl("server.go", "Server", "Serve"), "processHandlers", 3) }},
+		c18Fact{"c18.fact.handler_arg.llmnr_server", func() Val {
+			return llp().goArgFact(llp().funcDecl("server.go", "Server", "Serve"), "processHandlers", 3)
+		}},
 		c18Fact{"c18.fact.demux_key.llmnr_client", func() Val { return llp().demuxKeyFact() }},
 	)
 	sort.SliceStable(fs, func(i, j int) bool { return fs[i].name < fs[j].name })
